@@ -230,7 +230,7 @@ VF_PROPERTY(parse_float_strings, 4, "strings from a floating-literal grammar (di
 
 VF_PROPERTY(parse_bool_strings, 1, "bool literals 0/1/true/false in any letter case with blanks, other digits, trailing text; agree across 4 widths; non-trivial = not exactly one of the four canonical spellings")
 {
-	static const char* W[] = { "true", "false", "0", "1", "2", "10", "01", "-1", "t", "tru", "yes", "" , "TRUE", "False", "fAlSe", "truex", "1x", "0.5", "9" };
+	static const char* W[] = { "true", "false", "0", "1", "2", "10", "01", "-1", "t", "tru", "yes", "" , "TRUE", "False", "fAlSe", "truex", "1x", "0.5", "9", "1e5", "0e-3", "1.", "1e", "0.x" };
 	std::string s = HEADS[c.src.draw(8)]; std::string w = W[c.src.draw(sizeof W / sizeof *W)];
 	for (auto& ch : w) if (c.src.coin()) ch = static_cast<char>(std::toupper(static_cast<unsigned char>(ch)));
 	s += w; s += TAILS[c.src.draw(6)];
@@ -238,7 +238,9 @@ VF_PROPERTY(parse_bool_strings, 1, "bool literals 0/1/true/false in any letter c
 	// reference
 	size_t i = refnum::skip_blanks(s); std::string t = s.substr(i); std::string low; for (char ch : t) low.push_back(static_cast<char>(std::tolower(static_cast<unsigned char>(ch))));
 	int expect;   // 1 true, 0 false, -1 invalid, -2 out of range
-	if (!t.empty() && refnum::dig(t[0])) { size_t n = 0; while (n < t.size() && refnum::dig(t[n])) n++; expect = (n == 1 && t[0] == '1') ? 1 : (n == 1 && t[0] == '0') ? 0 : -2; }
+	if (!t.empty() && refnum::dig(t[0])) { size_t n = 0; while (n < t.size() && refnum::dig(t[n])) n++; expect = (n == 1 && t[0] == '1') ? 1 : (n == 1 && t[0] == '0') ? 0 : -2;
+		auto at = [&](size_t k) { return k < t.size() ? t[k] : '\0'; };   // a digit continued as a floating number is not a bool literal
+		if ((at(1) == '.' && refnum::dig(at(2))) || ((at(1) == 'e' || at(1) == 'E') && (refnum::dig(at(2)) || ((at(2) == '+' || at(2) == '-') && refnum::dig(at(3)))))) expect = -1; }
 	else if (low.rfind("true", 0) == 0) expect = 1; else if (low.rfind("false", 0) == 0) expect = 0; else expect = -1;
 	Res<bool> r = parse<bool>(s);
 	std::string d = vf::cat(show(s), " -> kind=", r.k, " value=", r.v, " expected=", expect);
